@@ -391,3 +391,32 @@ func (e *Exec) Feasible(cond *Term) bool {
 	r := RunPortfolio(e.BuildSMT([]*Term{cond}, nil), 10*time.Second, []string{"z3"})
 	return r.Status != "unsat"
 }
+
+
+// concretizeIdx: when ConcIdx is set and the (Int-sorted) index can take only one value under the
+// path condition, that constant is returned (exact: the other values are infeasible); else idx.
+func (e *Exec) concretizeIdx(st *State, idx *Term) *Term {
+	if !e.ConcIdx || idx.IsConst() || st.dead() {
+		return idx
+	}
+	if e.concIdxMemo == nil {
+		e.concIdxMemo = map[[2]int]*Term{}
+	}
+	key := [2]int{st.G.ID, idx.ID}
+	if c, ok := e.concIdxMemo[key]; ok {
+		return c
+	}
+	out := idx
+	e.FeasCalls++
+	r := RunPortfolio(e.BuildSMT([]*Term{st.G}, []*Term{idx}), 10*time.Second, []string{"z3"})
+	if r.Status == "sat" && len(r.Values) > 0 {
+		if v, _, err := EvalNum(r.Values[0]); err == nil && v.IsInt() {
+			c := e.S.BigInt(v.Num())
+			if !e.Feasible(e.S.And(st.G, e.S.Not(e.S.Eq(idx, c)))) {
+				out = c
+			}
+		}
+	}
+	e.concIdxMemo[key] = out
+	return out
+}
